@@ -25,30 +25,44 @@ CFG = {
                   "quantifier: failing statx-based probes (Path::exists / is_dir), readdir, close; ENOENT at the best-effort deletes "
                   "(tagged enoent-at-delete, run to show where the tolerance sits, never judged); partial effects of a failed call "
                   "(the model leaves the state unchanged; the theorems allow any). Inputs libcnb keeps in a HashMap (exec.d programs, "
-                  "per-process env) have one element so that the call list is deterministic. Refinement (M3) is proved for three "
+                  "per-process env) have up to three elements; their iteration order is made reproducible by answering the child's "
+                  "getrandom with a fixed pattern (one order per pair is exercised). Nine further operations and five further prepared "
+                  "states are defined in Driver/C12.lean from the same program constructors of Model/FsProg.lean. Refinement (M3) is proved for three "
                   "write programs; for the others the fault-free model run is compared with the real run (trace cases: call set, "
                   "prepared and final directory). Trusted: Lean kernel; Spec/FaultReport.lean (my reading of the property); the shim "
                   "harness/shim/faultfs.c (interposition checked on every run: the injected call must be the k-th call of the "
                   "fault-free log and carry the INJ mark); harness c12.rs / c12op.rs; tbp.rs for the phases.",
     "shrink": [],
-    "rule": "quick: 44 (operation, prepared state) pairs (22 operations, 842 real call positions -> 2526 fault points; layer states absent / orphan toml / bare dir / restored-min / "
+    "rule": "quick: 83 (operation, prepared state) pairs (31 operations, 2731 real call positions -> 8193 fault points; layer states absent / orphan toml / bare dir / restored-min / "
             "typed / full (env, env.build, env.launch + process dir, exec.d, bin, nested data, two SBOM files) / invalid metadata / "
-            "broken toml; phase states clean / existing outputs); per pair one trace case (fault-free: result, set of libc-level "
-            "calls as class:path:result, prepared and final snapshot — all four compared with the model's fault-free run) and, for "
-            "EVERY position k of the real call list, one fault case per errno in {EIO, EACCES, ENOSPC}, plus ENOENT at every "
-            "delete-type call (unlink, rmdir, chmod, opendir). thorough: every operation on every prepared state (150 pairs, 2337 positions -> 7011 fault "
-            "points), same enumeration. Positions come from the real trace. The model is asked by CLASS of the failed call, not by position: the "
+            "broken toml, and - so that every loop of the code runs more than once and a fault can hit its 2nd iteration - rich (2-3 files in "
+            "every env directory, two process directories with two files each, two exec.d programs, three files in nested data, all three SBOM "
+            "formats), richinv (the same with undecodable metadata), spdx (only the middle SBOM format present), wide (33 files in the layer, "
+            "21 env files, 17 exec.d programs), emptyvals (an env file and an SBOM without bytes); phase states clean / existing outputs; "
+            "operations incl. write_env with several entries per scope and two process types, write_sboms of all three formats / only spdx / "
+            "an SBOM without bytes, write_exec_d_programs with three programs, trait-API create/update results of that size, a build result "
+            "with all six SBOM files); per pair one trace case (fault-free: result, set of libc-level "
+            "calls as class:path:result, prepared and final snapshot - all four compared with the model's fault-free run) and, for "
+            "EVERY position k of the real call list (file opens, directory opens, writes, reads, mkdir, unlink, rmdir, chmod, copy), one fault "
+            "case per errno in {EIO, EACCES, ENOSPC}, plus ENOENT at every "
+            "delete-type call (unlink, rmdir, chmod, opendir). thorough: every operation on every prepared state (345 pairs, 10144 positions -> 30432 fault "
+            "points), same enumeration. Positions come from the real trace; the children run with a fixed getrandom pattern so that the "
+            "iteration order of libcnb's HashMaps (process env deltas, exec.d programs) is the same in the fault-free and the faulted run. "
+            "The model is asked by CLASS of the failed call, not by position: the "
             "observation names the failed libc call as class:path:fault-free-result plus its occurrence number among the std calls "
             "with that key; the driver finds the occ-th primitive call of the model's fault-free run that issues such a libc call "
             "(Model/FsProg.libcCalls), fails it and answers err / ok:same / ok:diff (model final state incl. directory modes vs. "
             "model fault-free state). Spec oracle = the property: err, or ok with a snapshot equal to the fault-free one; "
-            "ENOENT at a delete-type call is excluded. non-trivial = a fault case (a real child run in which the injected call "
+            "ENOENT at a delete-type call is excluded. Left out: symlinks / hard links / read-only entries in the prepared states (the model's "
+            "file system has files and directories only; C11 covers deleting such trees), dotted layer names (no call of the operations depends "
+            "on the name), retry after a failed call (not part of the property). non-trivial = a fault case (a real child run in which the injected call "
             "was hit); distinct = distinct (operation, state, position, errno)",
     "exhaustive": True,
     "trusted_base": ["Spec/FaultReport.lean is my reading of C12 (reported = Err or directory equal to the fault-free one; "
                      "exclusion = ENOENT at a delete-type call)",
                      "harness/shim/faultfs.c (LD_PRELOAD interposer: open/open64/openat/openat64, opendir, write, read, mkdir, unlink, "
-                     "unlinkat, rmdir, rename, chmod, fchmod, copy_file_range, sendfile64; fd -> path table)",
+                     "unlinkat, rmdir, rename, chmod, fchmod, copy_file_range, sendfile64; fd -> path table; getrandom answered with a fixed "
+                     "pattern when FAULTFS_FIXED_RANDOM=1)",
                      "harness/src/bin/c12op.rs (one public-API call per child, shim armed only around it) and tbp.rs (phases)"],
     "assumptions": COMMON_ASSUME + [
         "the Rust code makes its file-system calls through the libc entry points the shim interposes (checked: every pair's real "
